@@ -1,8 +1,10 @@
 package main
 
 import (
+	"bytes"
 	"fmt"
 	"math/rand"
+	"os"
 	"regexp/syntax"
 	"strings"
 
@@ -256,7 +258,63 @@ func genC01(r *rand.Rand, tier string, env *Env) []Case {
 		cases = append(cases, Case{Kind: "same-thing-twice", Ops: []Op{{"parse.run", args[6:]}, {"gen.run", args}}, Oracles: []Op{{"c01.language", args}}})
 	}
 	cases = append(cases, sharedDefinitionCases("c01.language")...)
+	// "the regex printed by `regex generate`": what the binary prints has the language of what the assembler computed.
+	// Entries with characters that mean something to an output path (format verbs, template and shell characters).
+	for _, prog := range []string{"%2f\n%5c\n", "100%\n50%\n", "a%sb\n", "%d+\n", "x%\ny\n", "%%\n", "a%20b\nc\n", "\\$1\n", "${x}\n"} {
+		args := append(append([][]byte{}, empty...), []byte(prog))
+		cases = append(cases, Case{Kind: "printed", Ops: []Op{{"gen.run", args}}, Oracles: []Op{{"c01.language", args}, {"c01.printed", args}}})
+	}
+	nPrinted := 10
+	if tier == "thorough" {
+		nPrinted = 120
+	}
+	for i := 0; i < nPrinted; i++ {
+		o := wellFormedEntryOpts()
+		o.exotic = 0.4
+		p := genProgram(r, o)
+		cases = append(cases, Case{Kind: "printed", Ops: []Op{p.genOp()}, Oracles: []Op{{"c01.printed", p.genOp().Args}}})
+	}
 	return cases
+}
+
+// oracleC01Printed: the text `regex generate -` prints accepts the strings the assembler's result accepts
+func oracleC01Printed(p *Pair, env *Env, a [][]byte) *Failure {
+	gr := p.Impl(Op{"gen.run", a}, env.timeout)
+	if gr.Status != "ok" {
+		return nil
+	}
+	sb := mkSandbox(env)
+	defer os.RemoveAll(sb)
+	t := Tree{"regex-assembly/include/": nil, "regex-assembly/exclude/": nil}
+	files := a[7:]
+	for i := 0; i+2 < len(files); i += 3 {
+		dir := "include"
+		if string(files[i]) == "e" {
+			dir = "exclude"
+		}
+		t["regex-assembly/"+dir+"/"+string(files[i+1])] = files[i+2]
+	}
+	if !cfgIsEmpty(a[0:6]) {
+		t["regex-assembly/toolchain.yaml"] = []byte(toolchainYaml(a[0:6]))
+	}
+	_ = t.write(sb)
+	c := runCLI(env, sb, a[6], "-l", "disabled", "regex", "generate", "-")
+	if c.exit == 0 && bytes.Equal(c.stdout, gr.Out[0]) {
+		return nil
+	}
+	detail := fmt.Sprintf("program %q\nassembler %q\nbinary exit %d stdout %q", a[6], gr.Out[0], c.exit, c.stdout)
+	if c.exit != 0 {
+		return &Failure{What: "a well-formed program compiles in the assembler and fails in the binary", Detail: detail}
+	}
+	d, err := compareLanguages(int64(len(c.stdout)), string(c.stdout), string(gr.Out[0]), "", "\v", 300)
+	if err != nil {
+		return &Failure{What: "the printed regex does not parse as a regular expression: " + err.Error(), Detail: detail}
+	}
+	if d != nil {
+		return &Failure{What: "the printed regex and the assembler's result accept different strings",
+			Detail: fmt.Sprintf("%s\nsubject %q: printed accepts=%v, result accepts=%v", detail, d.subject, d.inA, d.inB)}
+	}
+	return nil
 }
 
 // sharedDefinitionCases: include-except whose include file defines names — nested, in either alphabetical order of the
@@ -291,6 +349,7 @@ func sharedDefinitionCases(oracle string) []Case {
 
 func init() {
 	oracles["c01.language"] = oracleC01
+	oracles["c01.printed"] = oracleC01Printed
 	properties["C01"] = &Property{
 		ID: "C01", LeanMods: []string{"CrsProps.C01"},
 		Corr: "K2 (parser.Parse), K5 (Operator.Run end to end; the model's engine answers come from the real rassemble.Join)",
